@@ -1402,6 +1402,39 @@ def _unstage_fields(fn):
             return _unstage_fields(fn)
 
 
+_PURE_CALLS = {'len', 'isinstance', 'bool', 'getattr', 'hasattr', 'callable'}
+
+
+def _is_pure_condition(e):
+    for x in ast.walk(e):
+        if isinstance(x, ast.Call):
+            if not (isinstance(x.func, ast.Name) and x.func.id in _PURE_CALLS):
+                return False
+        elif not isinstance(x, (ast.BoolOp, ast.UnaryOp, ast.Compare, ast.Name, ast.Attribute, ast.Subscript, ast.Constant, ast.Tuple, ast.Set, ast.List, ast.Load,
+                                ast.And, ast.Or, ast.Not, ast.cmpop, ast.Index if hasattr(ast, 'Index') else ast.Load, ast.USub)):
+            return False
+    return True
+
+
+def _forward_named_conditions(fn):
+    """`flag = <condition without side effects>` directly followed by an `if` that tests flag: the test mentions the condition itself (the
+    assignment stays for other readers) -- `if a or b:` and `c = a or b; if c:` are the same decision"""
+    import copy
+    stores = _stores(fn)
+    for x in ast.walk(fn):
+        for fld in ('body', 'orelse', 'finalbody'):
+            lst = getattr(x, fld, None)
+            if not isinstance(lst, list):
+                continue
+            for i in range(len(lst) - 1):
+                a, b = lst[i], lst[i + 1]
+                if isinstance(a, ast.Assign) and len(a.targets) == 1 and isinstance(a.targets[0], ast.Name) and stores.get(a.targets[0].id) == 1 and isinstance(b, ast.If) and \
+                        isinstance(a.value, (ast.BoolOp, ast.Compare, ast.UnaryOp)) and _is_pure_condition(a.value) and \
+                        any(isinstance(y, ast.Name) and y.id == a.targets[0].id for y in ast.walk(b.test)):
+                    b.test = _Subst({a.targets[0].id: a.value}).visit(copy.deepcopy(b.test))
+                    ast.fix_missing_locations(b)
+
+
 def _record_types(tree):
     """module-level record types whose fields are known: `T = namedtuple('T', [...])` and classes whose __init__ stores each parameter in the
     attribute of the same name -> {name: [field, ...]} in constructor order"""
@@ -1637,8 +1670,10 @@ class Module:
         if kd is not None:
             # functions that are not as they were when the tree was read: a field that is staged in a local gets its value directly
             for q, node in function_table(raw).items():
-                if q in kd and kd[q] != fn_digest(node) and '.' in q:
-                    _unstage_fields(node)
+                if q in kd and kd[q] != fn_digest(node):
+                    if '.' in q:
+                        _unstage_fields(node)
+                    _forward_named_conditions(node)
         self.tree = ast.fix_missing_locations(_Desugar().visit(raw))
         known = known_functions().get(relpath)
         if known is not None and _InlineNewHelpers(self.tree, known, foreign=foreign, modname=name, is_pkg=relpath.endswith('__init__.py'), known_digests=kd).run():
